@@ -39,4 +39,4 @@ def cluster_fn():
 
 
 def cluster_target():
-    return Target('acc_cluster', [cluster_fn()], 'specs/C10/cluster.h', cbmc_flags=['--sat-solver', 'cadical'])
+    return Target('acc_cluster', [cluster_fn()], 'specs/C10/cluster.h', cbmc_flags=['--sat-solver', 'cadical'], timeout=900)
